@@ -9,3 +9,97 @@ Definition err_code (e : err) : Z :=
 
 Definition chk_c06 (p : package) : Z :=
   match wf_pkg prims_ext p with Ok _ => 0 | Error e => err_code e end.
+
+(* ---------------------------------------------------------------------------------------------------------------
+   Strengthening round (C06x): the whole statement per package - wf_pkg, instance parameters, and the three consumers
+   named by the property (0 accepted, 1 rejected, 2 skipped) against what Spec/C06Accept.v predicts.
+   code 0 ok · 11..24 wf_pkg error · 31 an instance parameter without name / value or a repeated name ·
+   41 from_proto rejects a well-formed package · 42 a netlister rejects a well-formed package whose flat names are unique ·
+   50 the netlisters reject a well-formed package because of their flat name spaces (finding class; predicted) ·
+   51 ... because an instance of a vlsir.primitives element lacks a parameter vlsirtools requires (finding class; predicted) ·
+   3  the flat-name-space model of the netlisters disagrees with them (spec validation) *)
+Require Import Hdl21.Spec.C06Accept Hdl21.Model.C06Export.
+From Coq Require String.
+
+Record c06_case := { cc_pkg : package; cc_from : Z; cc_spice : Z; cc_spectre : Z }.
+
+Definition chk_c06_full (c : c06_case) : Z :=
+  let p := cc_pkg c in
+  match wf_pkg prims_ext p with
+  | Error e => err_code e
+  | Ok _ =>
+      if negb (wf_pkg_params p) then 31
+      else if cc_from c =? 1 then 41
+      else if netlist_flat_ok p && prim_params_ok p then (if (cc_spice c =? 1) || (cc_spectre c =? 1) then 42 else 0)
+      else if (cc_spice c =? 1) && (cc_spectre c =? 1) then (if netlist_flat_ok p then 51 else 50)
+      else if (cc_spice c =? 2) && (cc_spectre c =? 2) then 0
+      else 3
+  end.
+
+(* ---- tie of the exporter model (Model/C06Export.v): module order, per-module references in instance order,
+        declared external modules in order; None = the implementation refused to export (module-name or
+        external-declaration conflict). code 2 = model and implementation differ *)
+(* the design side names primitives by their hdl21 class name; the reference the exporter writes for them comes from the
+   regenerated tables (PHYSICAL -> hdl21.primitives/<name>, IDEAL -> vlsir.primitives/<prim_map[name]>) *)
+Require Import Hdl21Gen.Primitives.
+Inductive cref := CMod (k : nat) | CExt (j : nat) | CPrim (pname : name).
+
+Definition prim_ref (nm : name) : option (name * name) :=
+  match find (fun e : string * string * list (string * Z) => String.eqb (fst (fst e)) nm) primitives with
+  | Some (_, ty, _) =>
+      if String.eqb ty "PHYSICAL" then Some ("hdl21.primitives", nm)
+      else match assoc nm prim_map_export with Some v => Some ("vlsir.primitives", v) | None => None end
+  | None => None
+  end.
+
+Definition cref_href (c : cref) : option href :=
+  match c with
+  | CMod k => Some (HMod k)
+  | CExt j => Some (HExt j)
+  | CPrim nm => match prim_ref nm with Some (d, n) => Some (HPrim d n) | None => None end
+  end.
+
+Fixpoint opt_all {A B} (f : A -> option B) (l : list A) : option (list B) :=
+  match l with
+  | [] => Some []
+  | x :: l' => match f x, opt_all f l' with Some y, Some ys => Some (y :: ys) | _, _ => None end
+  end.
+
+Definition cmod_hmod (m : name * list (cref * Z)) : option hmod :=
+  match opt_all (fun cn : cref * Z => match cref_href (fst cn) with Some r => Some (r, snd cn) | None => None end) (snd m) with
+  | Some is => Some {| hm_name := fst m; hm_insts := is |}
+  | None => None
+  end.
+
+Record c06_order_case := { oc_mods : list (name * list (cref * Z)); oc_xheap : xheap; oc_top : nat; oc_impl : option package }.
+
+Definition pref_eqb (a b : pref) : bool :=
+  match a, b with
+  | PLocal x, PLocal y => String.eqb x y
+  | PExt d n, PExt d' n' => String.eqb d d' && String.eqb n n'
+  | _, _ => false
+  end.
+
+Fixpoint list_eqb {A} (f : A -> A -> bool) (a b : list A) : bool :=
+  match a, b with
+  | [], [] => true
+  | x :: a', y :: b' => f x y && list_eqb f a' b'
+  | _, _ => false
+  end.
+
+Definition chk_c06_order (c : c06_order_case) : Z :=
+  match opt_all cmod_hmod (oc_mods c) with
+  | None => 3
+  | Some hp =>
+  match export hp (oc_xheap c) [oc_top c], oc_impl c with
+  | Ok st, Some p =>
+      if list_eqb (fun a b => String.eqb (fst a) (fst b) && list_eqb pref_eqb (snd a) (snd b))
+                  (map (fun m => (fst m, map oref_pref (snd m))) (xs_out st))
+                  (map (fun m => (pm_name m, map pi_ref (pm_insts m))) (pk_mods p))
+         && list_eqb pext_eqb (xs_exts st) (pk_exts p)
+      then 0 else 2
+  | Error EName, None => 0
+  | Error EFuel, _ => 3
+  | _, _ => 2
+  end
+  end.
